@@ -1330,9 +1330,12 @@ def compile_match_expression(compiler, expr, root, subject, clauses):
             )
         )
 
+    # (The expression node is listed as a temporary too, so that
+    # `Result.rename` keeps it in step with the assignments.)
+    return_expr = asty.Name(expr, id=return_var.id, ctx=ast.Load())
     returnable = Result(
-        expr=asty.Name(expr, id=return_var.id, ctx=ast.Load()),
-        temp_variables=[return_var],
+        expr=return_expr,
+        temp_variables=[return_expr, return_var],
     )
     ret = Result() + subject
     ret += asty.Assign(
@@ -1562,9 +1565,12 @@ def compile_try_expression(compiler, expr, root, body, catchers, orelse, finalbo
         # in `(finally (do))`. Python requires a nonempty block.
         finalbody = finalbody.stmts or [asty.Pass(expr)]
 
+    # (The expression node is listed as a temporary too, so that
+    # `Result.rename` keeps it in step with the assignments.)
+    return_expr = asty.Name(expr, id=return_var.id, ctx=ast.Load())
     returnable = Result(
-        expr=asty.Name(expr, id=return_var.id, ctx=ast.Load()),
-        temp_variables=[return_var],
+        expr=return_expr,
+        temp_variables=[return_expr, return_var],
     )
     body += (
         body.expr_as_stmt()
